@@ -25,7 +25,8 @@ def main(tier, rep):
                                  quick_stride=3)
     traces = [L.run_program(cfg, steps) for cfg, steps in progs]
     L.validate(rep, traces, relevant, PROP)
-    # connmodel.design_and_replay(rep, tier, PROP, relevant)
+    from drivers import connmodel
+    connmodel.design_and_replay(rep, tier, PROP, relevant)
     rep.set("evaluations", len(traces))
     rep.set("distinct_nontrivial", len({(t["h"]["kind"],) + tuple((s[1], s[2], s[3]) for s in t["steps"] if s[0] == "call" and s[3]) for t in traces}))
     rep.set("rule", "one execution per (stack, warm/fresh, operation, noreply, single-fault plan, follow-up sequence); "
